@@ -3,6 +3,7 @@ import NSG.Model.Basic
 import NSG.Model.World
 import NSG.Model.Defender
 import NSG.Model.Coord
+import NSG.Model.Codec
 /-!
 Line-protocol driver: one JSON object per input line, one JSON object per output line.
 Only executable model definitions are used here; nothing is defaulted - an unknown op or a
@@ -235,6 +236,32 @@ def ocoord (s : NSG.Coord.St) (seen : List Nat) : Json := Json.mkObj [
   ("conns", olist (fun c => Json.arr #[onat c, ophase (s.conn c)]) seen),
   ("agents", olist (fun c => Json.arr #[onat c, oagent (s.agent c)]) s.ids)]
 
+-- codec ----------------------------------------------------------------------------------------
+open NSG.Codec in
+partial def toJ (j : Json) : R J :=
+  match j with
+  | .null => return .null
+  | .bool b => return .bool b
+  | .num n => if n.exponent = 0 then return .num n.mantissa else throw "non-integer number"
+  | .str s => return .str s
+  | .arr a => do return .arr (← a.toList.mapM toJ)
+  | .obj o => do return .obj (← (o.toList.map (fun p => (p.1, p.2))).mapM (fun p => do return (p.1, ← toJ p.2)))
+
+open NSG.Codec in
+partial def ofJ : J → Json
+  | .null => Json.null
+  | .bool b => Json.bool b
+  | .num n => Json.num (JsonNumber.fromInt n)
+  | .str s => Json.str s
+  | .arr l => Json.arr (l.map ofJ).toArray
+  | .obj l => Json.mkObj (l.map (fun p => (p.1, ofJ p.2)))
+
+open NSG.Codec in
+def jval (j : Json) : R Val := do
+  let ips ← jlist jstr (← jfield j "valid_ips")
+  let nets ← jlist (jpair jstr jint) (← jfield j "valid_nets")
+  return { ip := fun s => ips.contains s, net := fun a m => nets.contains (a, m) }
+
 -- state ----------------------------------------------------------------------------------------
 structure DState where
   world : World := default
@@ -296,6 +323,26 @@ def handle (st : DState) (j : Json) : R (DState × Json) := do
       let full := (← jbool (← jfield j "full"))
       return ({ st with cst := s', seen := seen }, Json.mkObj [("out", olist oout outs),
         ("state", if full then ocoord s' seen else Json.null)])
+  | "decode" =>
+    let V ← jval j
+    let x ← toJ (← jfield j "j")
+    match NSG.Codec.decode V x with
+    | none => return (st, Json.mkObj [("ok", false)])
+    | some a => return (st, Json.mkObj [("ok", true), ("action", ofJ (NSG.Codec.encode a)),
+        ("keys", olist (fun (p : NSG.Codec.PKey × NSG.Codec.PVal) => Json.str p.1.name) a.params)])
+  | "acteq" =>
+    let V ← jval j
+    let a ← toJ (← jfield j "a")
+    let b ← toJ (← jfield j "b")
+    match NSG.Codec.decode V a, NSG.Codec.decode V b with
+    | some x, some y => return (st, Json.mkObj [("ok", true), ("eq", decide (NSG.Codec.actionEq x y)),
+        ("hasheq", decide (NSG.Codec.hashA id x = NSG.Codec.hashA id y))])
+    | _, _ => return (st, Json.mkObj [("ok", false)])
+  | "viewrt" =>
+    let x ← toJ (← jfield j "j")
+    match NSG.Codec.viewFromDict x with
+    | none => return (st, Json.mkObj [("ok", false)])
+    | some v => return (st, Json.mkObj [("ok", true), ("j", ofJ (NSG.Codec.viewAsDict v))])
   | "goal" =>
     let g ← jgoal (← jfield j "goal")
     let v ← jview (← jfield j "view")
